@@ -705,6 +705,7 @@ class RecFn(FlagFn):
         self.ys = None
         self.SELF = _SelfObj()
         self.made = []
+        self.probe = False          # evaluate __bool__ between mutations (histories bool(); mutate; bool())
         self.fallback = {}          # selector name -> row table decided by the interpreter (used when its body is outside this language)
 
     @property
@@ -725,8 +726,10 @@ class RecFn(FlagFn):
                 self.apply(_Bound(init), [])
             if not isinstance(obj.records, list) or obj.records:
                 raise _Unknown('__init__ does not start with an empty record list')
+            self._probe()
             for i, v in enumerate(values):
                 self.apply(_Bound(self.M.f), [_Opaque('signature'), _Opaque('by'), _Opaque('subject'), Flag(v)])
+                self._probe()
             if [r.value for r in obj.records if isinstance(r, _Rec)] != list(values) or len(obj.records) != len(values):
                 raise _Unknown('add_sigsubj does not append one record per call')
             for i, r in enumerate(obj.records):
@@ -737,6 +740,18 @@ class RecFn(FlagFn):
         finally:
             self.SELF = saved
         return obj
+
+    def _probe(self):
+        """History mode: truthiness is asked between the mutations (if / assert / repr do that), so that whatever __bool__ caches
+        is in place when the next mutator runs."""
+        if not self.probe:
+            return
+        bf = self.sv.find_method('__bool__')
+        if bf is not None:
+            try:
+                self.method(bf)
+            except _Unknown:
+                pass
 
     def run(self, f, records):
         """records: verdict values (the instance is built through the class's mutators) or ready _Rec objects."""
@@ -1101,10 +1116,20 @@ def _concrete_bool(E, P, f):
     the result is not the conjunction of the per-record results (or the empty result is falsy)."""
     res = {}
     for L in _record_lists(P):
-        v = E.run(f, L)
-        if isinstance(v, _Rec) or v is None:
-            raise _Unknown('truth value %r' % (v,))
-        res[L] = bool(v)
+        vals = []
+        for probe in (False, True):
+            E.probe = probe
+            try:
+                v = E.run(f, L)
+            finally:
+                E.probe = False
+            if isinstance(v, _Rec) or v is None:
+                raise _Unknown('truth value %r' % (v,))
+            vals.append(bool(v))
+        if vals[0] != vals[1]:
+            return [('any', 'records %s: %s when truthiness was also asked before the last record was added, %s otherwise '
+                     '(a cached verdict survives a mutation)' % (_listname(P, L), vals[1], vals[0]))] * len(ROWS)
+        res[L] = vals[0]
     tbl = [None] * len(ROWS)
     for L in res:
         if len(L) == 1:
@@ -1126,14 +1151,17 @@ def _concrete_and(E, P, f):
     bad = [v for v in _values(P) if v and P(v)]
     g, b = 0, (bad[0] if bad else _values(P)[-1])
     lists = [(), (g,), (b,), (g, b)]
-    for A in lists:
-        for B in lists:
+    for A, B, probe in [(a, b, pr) for pr in (False, True) for a in lists for b in lists]:
+        if True:
             mine, theirs = list(A), list(B)
-            scen = '%d own record(s) & %d record(s) of the other' % (len(A), len(B))
+            scen = '%d own record(s) & %d record(s) of the other%s' % (len(A), len(B), ', truthiness asked before merging' if probe else '')
+            E.probe = probe
             try:
                 res, other = E.run_binary(f, mine, theirs)
             except _Raised as ex:
                 return '%s: raises %s' % (scen, ex)
+            finally:
+                E.probe = False
             if res is not E.SELF:
                 return '%s: returns %s, not the receiver' % (scen, 'the other operand' if res is other else repr(res))
             got = [getattr(r, 'ident', '?') for r in E.SELF.records]
@@ -1210,6 +1238,9 @@ def check_partition(rep, prog, rid):
         raise AnalysisError('SignatureVerification.__and__ no longer takes one operand')
     try:
         why = _concrete_and(E, P, f)
+        ia = ci.find_method('__iand__')
+        if why is None and ia is not None:
+            why = _concrete_and(E, P, ia)          # an in-place variant must merge the same way
     except _Unknown:
         why = False
     if why is not False:
@@ -1649,3 +1680,123 @@ def check_crypto_arm_verdict(rep, prog, rid):
                             pairs.add((m.group(1), m.group(2)))
             rep.check((a[0], a[2]) in pairs, rid, 'PGPKey.verify', 'record of %s' % (a[:3],),
                       'the record must name the signature and subject that were examined', where=w, expected=sorted(pairs), found=a[:3])
+
+
+# ------------------------------------------------------------------------------------------------ sources partition
+def check_sources_partition(rep, prog, rid):
+    """PGPKey.verify(<PGPKey>): the owner collections whose signatures are gathered (user ids, user attributes, subkeys) must not
+    overlap - an owner reachable through two of them has every certification examined and listed twice.  Each source
+    `subject.X` is resolved on PGPKey to (base collection, filter); two sources overlap when they share the base and their
+    filters are not provably disjoint (type tests of the element's packet against unrelated classes)."""
+    fi, outs, _ = run_verify(prog, F=False, V=False, subject_type='PGPKey')
+    rep.saw(fn=fi)
+    subj = fi.params[1]
+    K = prog.cls('pgpy.pgp', 'PGPKey')
+    # every loop / comprehension generator of the function that walks an attribute of the subject (located on the AST, so that
+    # append loops, extend(<generator>) and nested comprehensions all count); a `for` over a comprehension is that one loop
+    def strip(it):
+        while isinstance(it, ast.Call) and dotted(it.func) in ('iter', 'list', 'tuple') and len(it.args) == 1:
+            it = it.args[0]
+        return it
+
+    def is_subject_attr(it):
+        d = dotted(it.func.value) if isinstance(it, ast.Call) and isinstance(it.func, ast.Attribute) and not it.args and \
+            it.func.attr in ('values', 'keys', 'items') else dotted(it)
+        return d is not None and d.startswith(subj + '.') and d.count('.') == 1
+
+    def src_text(it):
+        return ast.unparse(it)
+    sources = []
+    for nd in ast.walk(fi.node):
+        gens = []
+        if isinstance(nd, ast.For):
+            it = strip(nd.iter)
+            if isinstance(it, (ast.GeneratorExp, ast.ListComp)) and len(it.generators) == 1 and isinstance(it.elt, ast.Name) and \
+                    isinstance(it.generators[0].target, ast.Name) and it.elt.id == it.generators[0].target.id:
+                gens.append((it.generators[0].target, strip(it.generators[0].iter), it.generators[0].ifs))
+                it.generators[0]._fused = True
+            else:
+                gens.append((nd.target, it, []))
+        elif isinstance(nd, ast.comprehension) and not getattr(nd, '_fused', False):
+            gens.append((nd.target, strip(nd.iter), nd.ifs))
+        flat = []
+        for target, it, ifs in gens:
+            flat.append((target, it, ifs))
+        for target, it, ifs in flat:
+            if not is_subject_attr(it):
+                continue
+            flt = None
+            if ifs:
+                c = ifs[0]
+                if len(ifs) == 1 and isinstance(target, ast.Name) and isinstance(c, ast.Attribute) and isinstance(c.value, ast.Name) and c.value.id == target.id:
+                    flt = '$1.%s' % c.attr
+                else:
+                    raise AnalysisError('PGPKey.verify: filter of the loop over %s not understood' % src_text(it))
+            sources.append((src_text(it), flt))
+    # itertools.chain(a, b, c), iterated directly or through a local, walks each of its arguments
+    for nd in ast.walk(fi.node):
+        if isinstance(nd, ast.Call) and (dotted(nd.func) or '').split('.')[-1] == 'chain' and not nd.keywords:
+            for a in nd.args:
+                if is_subject_attr(strip(a)):
+                    sources.append((src_text(strip(a)), None))
+    # a comprehension fused into its `for` was visited before being marked when ast.walk reached it first: drop such duplicates
+    sources = [x for i, x in enumerate(sources) if not (x in sources[:i] and x[1] is not None)]
+    if len(sources) < 2:
+        raise AnalysisError('PGPKey.verify: fewer than two owner collections are walked for a key subject (%s)' % sources)
+
+    def resolve(coll):
+        m = re.match(r'^%s\.([A-Za-z_]\w*)(\.values\(\)|\.keys\(\)|\.items\(\))?$' % re.escape(subj), coll)
+        if not m:
+            raise AnalysisError('PGPKey.verify walks %s: not an attribute of the key' % coll)
+        g = K.find_method(m.group(1))
+        if g is None:
+            return ('%s.%s' % (g and g.params[0] or 'self', m.group(1)), None)
+        rets = set(alpha(render(s.ret)) for s in Interp(prog, Scenario(inline=noinline)).run(g) if s.raised is None and s.ret is not None)
+        if len(rets) != 1:
+            raise AnalysisError('PGPKey.%s: cannot tell which collection it denotes (%s)' % (m.group(1), sorted(rets)))
+        t = _unwrap_iter(rets.pop())
+        e = re.match(r'^EACH\(\$1 in ([^;]*?)(?: if ([^;]*))?;\$1\)$', t)
+        if e:
+            return (e.group(1), e.group(2))
+        if re.match(r'^%s(\.[A-Za-z_]\w*)+$' % re.escape(g.params[0]), t):
+            return (t, None)
+        raise AnalysisError('PGPKey.%s: collection not understood: %s' % (m.group(1), t))
+
+    def filter_class(flt):
+        """`$1.P` with PGPUID.P returning isinstance(self._uid, C): the class C."""
+        m = re.match(r'^\$1\.([A-Za-z_]\w*)$', flt or '')
+        if not m:
+            return None
+        U = prog.cls('pgpy.pgp', 'PGPUID')
+        g = U.find_method(m.group(1))
+        if g is None:
+            return None
+        rets = set(render(s.ret) for s in Interp(prog, Scenario(inline=noinline)).run(g) if s.raised is None and s.ret is not None)
+        if len(rets) != 1:
+            return None
+        c = re.match(r'^isinstance\(%s\.[A-Za-z_]\w*, ([A-Za-z_]\w*)\)$' % re.escape(g.params[0]), rets.pop())
+        return c.group(1) if c else None
+
+    def disjoint(f1, f2):
+        c1, c2 = filter_class(f1), filter_class(f2)
+        if c1 is None or c2 is None or c1 == c2:
+            return False
+        mod = prog.module('pgpy.pgp')
+        a, b = prog.lookup(mod, c1), prog.lookup(mod, c2)
+        if not hasattr(a, 'mro') or not hasattr(b, 'mro'):
+            return False
+        return a not in b.mro() and b not in a.mro()
+    res = []
+    for c, flt in sources:
+        b, f0 = resolve(c)
+        if flt is not None and f0 is not None and flt != f0:
+            raise AnalysisError('PGPKey.verify: %s is filtered twice (%s, %s)' % (c, f0, flt))
+        res.append((c, b, flt if flt is not None else f0))
+    for i in range(len(res)):
+        for j in range(i + 1, len(res)):
+            (c1, b1, f1), (c2, b2, f2) = res[i], res[j]
+            overlap = b1 == b2 and not disjoint(f1, f2)
+            rep.check(not overlap, rid, 'PGPKey.verify', 'sources %s / %s' % (c1, c2),
+                      'the collections the (signature, subject) pairs are gathered from must not overlap: an owner reachable through '
+                      'both has each of its certifications examined and listed twice', where=fi.where,
+                      expected='disjoint owner collections', found='%s = %s%s ; %s = %s%s' % (c1, b1, ' if ' + f1 if f1 else '', c2, b2, ' if ' + f2 if f2 else ''))
